@@ -386,6 +386,7 @@ type LoopSpec struct {
 	Unroll     int
 	Bounded    int
 	Modifies   []*Clause
+	After      []*Clause
 }
 
 type ParamDecl struct {
@@ -599,6 +600,13 @@ func ParseContractFile(path string, pkg string) (*ContractFile, error) {
 			}
 		case "unproved":
 			k, r := firstWord(rest)
+			if i := strings.Index(k, "@\""); i > 0 && !strings.HasSuffix(k, "\"") {
+				// the quoted snippet may contain spaces
+				if j := strings.Index(rest[i+2:], "\""); j >= 0 {
+					k = rest[:i+2+j+1]
+					r = strings.TrimSpace(rest[i+2+j+1:])
+				}
+			}
 			cur.Unproved[k] = r
 		case "assume":
 			cur.Assumes = append(cur.Assumes, rest)
@@ -692,6 +700,12 @@ func ParseContractFile(path string, pkg string) (*ContractFile, error) {
 					}
 					ls.Modifies = append(ls.Modifies, c)
 				}
+			case "after":
+				c, err := mkClause("after", r3, l.line)
+				if err != nil {
+					return nil, err
+				}
+				ls.After = append(ls.After, c)
 			case "unroll":
 				fmt.Sscanf(r3, "%d", &ls.Unroll)
 			case "bounded":
